@@ -231,7 +231,7 @@ fn nonzero_terms<const K: usize>(t: &mut AffTree<K>, rng: &mut Rng) {
 
 pub fn ops(rep: &mut Report, tier: Tier) {
     let (n, reps) = if tier == Tier::Quick { (3, 1) } else { (3, 5) };
-    rep.rule = "pairs of trees over the same input space x {+,-,*,/} x ownership variants (&a op &b, a op &b, a op b, &a op b), negation, and tree/affine mixed forms in both operand orders; contract: defined iff both operands defined, value = coefficient-wise op of the two reached terminals evaluated at x (differences tolerated only on regions with empty interior: operators prune on the fly); non-trivial: both operands have a decision".into();
+    rep.rule = "pairs of trees over the same input space (fresh, or with cached feasibility states from a previous infeasible_elimination) x {+,-,*,/} x ownership variants (&a op &b, a op &b, a op b, &a op b), negation, and tree/affine mixed forms in both operand orders; contract: defined iff both operands defined, value = coefficient-wise op of the two reached terminals evaluated at x (differences tolerated only on regions with empty interior: operators prune on the fly); non-trivial: both operands have a decision".into();
     rep.bound = format!("K=2 shapes with <= {n} decisions, {reps} assignment(s) per pair, dims in {{1,2}}, lattice [-3,3]^d step 1/2");
     let sh = shapes(2, n, true);
     let mut idx = 0u64;
@@ -245,8 +245,18 @@ pub fn ops(rep: &mut Report, tier: Tier) {
                 let mut rng = Rng::new(rep.seed ^ (idx * 104729 + r as u64));
                 let d = 1 + rng.below(2);
                 let m = 1 + rng.below(2);
-                let a = build::<2>(&mut rng, sa, d, m, false, true);
+                let mut a = build::<2>(&mut rng, sa, d, m, false, true);
                 let mut b = build::<2>(&mut rng, sb, d, m, false, false);
+                // operands coming out of a distillation pipeline carry cached feasibility states / witnesses: the on-the-fly pruning of
+                // the operators must not trust them beyond what they say
+                let pre_a = rng.chance(1, 2);
+                let pre_b = rng.chance(1, 3);
+                if pre_a {
+                    let _ = guarded(|| a.infeasible_elimination());
+                }
+                if pre_b {
+                    let _ = guarded(|| b.infeasible_elimination());
+                }
                 let opi = rng.below(4);
                 let op = ['+', '-', '*', '/'][opi];
                 if op == '/' {
@@ -255,7 +265,7 @@ pub fn ops(rep: &mut Report, tier: Tier) {
                 let variant = rng.below(4);
                 let xa = x_of(&a).unwrap();
                 let xb = x_of(&b).unwrap();
-                let descr = format!("a: {} | b: {} | op {} variant {}", xa.descr(), xb.descr(), op, variant);
+                let descr = format!("a{}: {} | b{}: {} | op {} variant {}", if pre_a { " (eliminated first)" } else { "" }, xa.descr(), if pre_b { " (eliminated first)" } else { "" }, xb.descr(), op, variant);
                 rep.evaluations += 1;
                 if xa.nodes.len() > 1 && xb.nodes.len() > 1 {
                     rep.nontrivial(&descr);
@@ -859,7 +869,7 @@ fn out_dim(t: &XTree) -> usize {
 
 pub fn histories(rep: &mut Report, tier: Tier) {
     let (cases, len) = if tier == Tier::Quick { (8000, 4) } else { (150000, 5) };
-    rep.rule = "random operation histories from every constructor (new, from_aff, from_poly with/without else-branch, schemas) over {apply_func, compose<prune on/off>(tree|schema), infeasible_elimination, reduce, +tree, -tree, neg, +affine} with dimension-compatible arguments; after each step: aff_wf (node input dims, common terminal output dim, decision row counts, leaf flag) and no panic; non-trivial: history contains a pruning step and a composition".into();
+    rep.rule = "random operation histories from every constructor (new, from_aff, from_poly with/without else-branch, schemas) over {apply_func (output widths 1-3), compose<prune on/off>(tree|activation schema|argmax|class_characterization), infeasible_elimination, reduce, +tree, -tree, neg, +affine} with dimension-compatible arguments; after each step: aff_wf (node input dims, common terminal output dim, decision row counts, leaf flag) and no panic; non-trivial: history contains a pruning step and a composition".into();
     rep.bound = format!("{cases} seeded histories of length <= {len}, dims in {{1,2}}, operand trees with <= 2 decisions");
     let sh = shapes(2, 2, true);
     for idx in 1..=cases as u64 {
@@ -897,7 +907,8 @@ pub fn histories(rep: &mut Report, tier: Tier) {
                 _ => Op::AddAff,
             };
             hist.push(format!("{op:?}"));
-            let o2 = 1 + rng.below(2);
+            // output widths up to 3, so that the head schemas (argmax, class characterisation) get more than two inputs
+            let o2 = 1 + rng.below(3);
             let pick = rng.below(sh.len());
             let res = guarded(|| match &op {
                 Op::ApplyFunc => {
@@ -909,7 +920,11 @@ pub fn histories(rep: &mut Report, tier: Tier) {
                     if *p { t.compose::<true, false>(&g) } else { t.compose::<false, false>(&g) }
                 }
                 Op::ComposeSchema(p) => {
-                    let g = small_schema(&mut rng, m);
+                    let g = if m >= 2 && rng.chance(1, 3) {
+                        if rng.chance(1, 2) { schema::argmax(m) } else { schema::class_characterization(m, rng.below(m)) }
+                    } else {
+                        small_schema(&mut rng, m)
+                    };
                     if *p { t.compose::<true, false>(&g) } else { t.compose::<false, false>(&g) }
                 }
                 Op::Eliminate => {
